@@ -253,6 +253,54 @@ theorem nothing_from_undecryptable (cfg : Config) (info : Info) (env : Env) (req
   unfold handle handleInner
   simp only [hd, hr]
 
+/-- The reference timestamp of an NTPv3/NTPv4 time answer does not depend on the request's reference timestamp
+    unless that is EXACTLY the upgrade marker (and the request is NTPv4): it is the server's own value — the
+    receive time truncated to 2^7 s — for every other request, near misses of the marker included. -/
+theorem reference_ts_not_reflected {info env req c r} (h : build info env req c .time = .ok r)
+    (h5 : req.version ≠ 5) (hm : ¬ (req.version = 4 ∧ req.reft = upgradeMarker)) :
+    r.hdr.refTime = u64Bytes (truncRef env.recv) := by
+  cases c with
+  | none =>
+    simp only [build, timestampResponse] at h
+    split at h
+    · simp at h
+    · simp only [Built.ok.injEq] at h
+      subst h
+      simp [timeHeader, h5, hm]
+  | some alg =>
+    simp only [build, ntsTimestampResponse] at h
+    repeat' split at h
+    all_goals first
+      | (simp at h; done)
+      | (simp only [Built.ok.injEq] at h; subst h; simp [timeHeader, h5, hm])
+
+/-- … and for a plain NTPv4 request with exactly the marker the answer carries exactly the marker (a constant);
+    NTS time answers never carry it. -/
+theorem reference_ts_marker {info env req r} (h : build info env req none .time = .ok r)
+    (h4 : req.version = 4) (hm : req.reft = upgradeMarker) : r.hdr.refTime = upgradeMarker := by
+  simp only [build, timestampResponse] at h
+  split at h
+  · simp at h
+  · simp only [Built.ok.injEq] at h
+    subst h
+    simp [timeHeader, h4, hm]
+
+theorem reference_ts_nts_own {info env req alg r} (h : build info env req (some alg) .time = .ok r)
+    (h5 : req.version ≠ 5) : r.hdr.refTime = u64Bytes (truncRef env.recv) := by
+  simp only [build, ntsTimestampResponse] at h
+  repeat' split at h
+  all_goals first
+    | (simp at h; done)
+    | (simp only [Built.ok.injEq] at h; subst h; simp [timeHeader, h5])
+
+/-- The poll field is echoed for EVERY byte value (no clamping, also for 0x80..0xff): a one-line corollary of
+    `time_answer_header`, stated for the record because the oracle clause `c18_echo_poll` checks it on the bytes. -/
+theorem poll_echoed_all_bytes {info env req c r} (h : build info env req c .time = .ok r) :
+    ∀ b : Nat, req.poll = b → r.hdr.poll = b := by
+  intro b hb
+  rw [← hb]
+  exact (time_answer_header h).2.2.2.1
+
 /-! #### non-vacuity -/
 
 def info0 : Info :=
@@ -279,3 +327,7 @@ end NtpVerif.C18
 #print axioms NtpVerif.C18.no_rate_answer
 #print axioms NtpVerif.C18.only_identifiers_echoed
 #print axioms NtpVerif.C18.nothing_from_undecryptable
+#print axioms NtpVerif.C18.reference_ts_not_reflected
+#print axioms NtpVerif.C18.reference_ts_marker
+#print axioms NtpVerif.C18.reference_ts_nts_own
+#print axioms NtpVerif.C18.poll_echoed_all_bytes
